@@ -332,8 +332,14 @@ def check_inplace_fresh(ctx, rule, ix, modules, extra_funcs=(), exceptions=None)
         for st, name, tags in sites:
             nsites += 1
             shared = sorted(t for t in tags if t.startswith('shared:'))
+            from ..util import alpha
             key = (construct, norm(st))
             exc = exceptions.get(key)
+            if exc is None:
+                # the row names the statement up to the renaming of locals
+                for k2 in exceptions:
+                    if k2[0] == construct and alpha(k2[1]) == alpha(st):
+                        key, exc = k2, exceptions[k2]
             if shared and exc is not None:
                 used_exc.add(key)
                 ctx.exception(rule, '%s `%s`' % key, exc)
